@@ -91,6 +91,7 @@ type Contract struct {
 	LoopTextOrder []string
 	Writes        []string // slice parameters whose elements the function writes
 	SafetyProps   []string
+	OneOf         []string // callback: the argument must be one of these methods
 	CaseOnly      ast.Expr // filter over split variables: only these cases exist
 	InstMods      []*InstMod
 	AssertBefore  []*AssertAnchor
@@ -899,9 +900,21 @@ func (cf *ContractFile) parseOne(path string) error {
 				c.SubstSrc[strings.TrimSpace(l)] = r
 			case "callback":
 				// callback PARAM  — following requires/ensures lines apply to it until 'endcallback'
-				cb := &Contract{Func: cur.Func + "#" + rest, Loops: map[int]*LoopSpec{}, Mode: cur.Mode}
-				cur.Callbacks[rest] = cb
-				curCb = cb
+				// callback PARAM oneof M1 M2 ... — the argument is one of these methods of the
+				// receiver (checked at every call site); a call through PARAM is treated with
+				// what their contracts have in common
+				f := strings.Fields(rest)
+				pname := rest
+				var oneOf []string
+				if len(f) >= 3 && f[1] == "oneof" {
+					pname = f[0]
+					oneOf = f[2:]
+				}
+				cb := &Contract{Func: cur.Func + "#" + pname, Loops: map[int]*LoopSpec{}, Mode: cur.Mode, OneOf: oneOf}
+				cur.Callbacks[pname] = cb
+				if oneOf == nil {
+					curCb = cb
+				}
 			case "endcallback":
 				curCb = nil
 			default:
